@@ -39,6 +39,15 @@ FLT = [0.0, -0.0, 1.5, -3.4028234663852886e38, 1.401298464324817e-45]
 NATIVES = list(ITYPES) + ["double", "float"]
 STRS = ["", "a", "hello world", "x y  z ", "0123456789abcdef0123456789"]
 ENUM = [("RED", 3), ("GREEN", 7), ("BLUE", -2)]
+# enums at every scope: global, in a namespace, in a class (typemap name = qualified name, enum name = last component)
+ENUMS = {"Color": ENUM, "ns1::Shade": [("ns1::LIGHT", 1), ("ns1::DARK", 4)], "K0::Mood": [("K0::CALM", 2), ("K0::WILD", -6)]}
+
+
+def default_value(p, dv):
+    """value of a default-argument literal"""
+    if p.fam == "bool":
+        return dv == "true"
+    return float(dv) if p.t in ("double", "float") else int(dv)
 
 
 def vals_of(t):
@@ -89,7 +98,7 @@ class Param:
     def cxx_type(self):
         if self.fam in ("fnptr", "cstrarr", "voidarr"):
             return ""
-        base = {"native": self.t, "bool": "bool", "char": "char", "cstr": "char", "string": "std::string", "enum": "Color",
+        base = {"native": self.t, "bool": "bool", "char": "char", "cstr": "char", "string": "std::string", "enum": self.t,
                 "struct": "Pt", "class": self.t}[self.fam]
         c = "const " if self.const else ""
         return c + base + {"val": " ", "ptr": " *", "ref": " &", "pp": " **", "pr": " *&"}[self.mode]
@@ -141,6 +150,7 @@ class Spec:
         self.tfuncs = []
         self.ns = None
         self.use_enum = self.use_struct = False
+        self.use_cls_enum = self.use_ns_enum = False
 
     # ------------------------------------------------------------ YAML
     def c_prefix(self):
@@ -178,7 +188,10 @@ class Spec:
         if self.use_struct:
             decls.append({"decl": "struct Pt { int x; double y; }"})
         for c in self.classes:
-            decls.append({"decl": "class " + c, "declarations": [self.fdecl(f) for f in self.funcs if f.cls == c]})
+            inner = [self.fdecl(f) for f in self.funcs if f.cls == c]
+            if c == "K0" and self.use_cls_enum:
+                inner.insert(0, {"decl": "enum Mood { %s }" % ", ".join("%s = %d" % (n.split("::")[-1], v) for n, v in ENUMS["K0::Mood"])})
+            decls.append({"decl": "class " + c, "declarations": inner})
         if self.tclass:
             decls.append({"decl": "template<typename T> class " + self.tclass[0],
                           "cxx_template": [{"instantiation": "<%s>" % t} for t in self.tclass[1]],
@@ -187,7 +200,10 @@ class Spec:
             if f.cls is None and f.ns is None:
                 decls.append(self.fdecl(f))
         if self.ns:
-            decls.append({"decl": "namespace " + self.ns, "declarations": [self.fdecl(f) for f in self.funcs if f.ns]})
+            inner = [self.fdecl(f) for f in self.funcs if f.ns]
+            if self.use_ns_enum:
+                inner.insert(0, {"decl": "enum Shade { %s }" % ", ".join("%s = %d" % (n.split("::")[-1], v) for n, v in ENUMS["ns1::Shade"])})
+            decls.append({"decl": "namespace " + self.ns, "declarations": inner})
         d = {"library": self.name, "cxx_header": self.name + ".hpp", "language": "c++",
              "options": {"wrap_fortran": False, "wrap_python": False, "wrap_lua": False}, "declarations": decls}
         if self.prefix is not None:
@@ -323,7 +339,7 @@ def ret_cxx(r):
 
 
 # ------------------------------------------------------------------ generation
-def gen_param(r, spec, i, allow_class=True, allow_struct=True):
+def gen_param(r, spec, i, allow_class=True, allow_struct=True, in_ns=False):
     fams = ["native"] * 5 + ["bool", "bool", "char", "cstr", "string", "string", "string", "enum", "enum", "fnptr", "cstrarr",
             "voidarr"]
     if allow_struct:
@@ -362,12 +378,23 @@ def gen_param(r, spec, i, allow_class=True, allow_struct=True):
         intent = r.choice(["in", "in", "out", "inout"])
         return Param(fam, "string", mode, intent, n, const=(intent == "in"))
     if fam == "enum":
-        spec.use_enum = True
+        scopes = ["Color"]
+        if "K0" in spec.classes:
+            scopes.append("K0::Mood")
+        if in_ns:
+            scopes += ["ns1::Shade", "ns1::Shade"]
+        et = r.choice(scopes)
+        if et == "Color":
+            spec.use_enum = True
+        elif et == "K0::Mood":
+            spec.use_cls_enum = True
+        else:
+            spec.use_ns_enum = True
         mode = r.choice(["val", "val", "ptr", "ref"])
         if mode == "val":
-            return Param(fam, "Color", "val", "in", n)
+            return Param(fam, et, "val", "in", n)
         intent = r.choice(["in", "out", "inout"])
-        return Param(fam, "Color", mode, intent, n, const=(intent == "in"))
+        return Param(fam, et, mode, intent, n, const=(intent == "in"))
     if fam == "struct":
         spec.use_struct = True
         k = r.choice(["val", "ptr", "cref", "cptr"])
@@ -491,8 +518,15 @@ def gen_defaults(r, name, cls=None):
     nreq = r.randrange(0, 3)
     nd = r.randrange(1, 4)
     params = [Param("native", r.choice(["int", "long", "double"]), "val", "in", "a%d" % i) for i in range(nreq)]
-    dts = [("int", 7), ("long", 9), ("int", 3)][:nd]
-    defaults = [(Param("native", t, "val", "in", "d%d" % i), str(v)) for i, (t, v) in enumerate(dts)]
+    # literals that are falsy in Python (0, 0.0, false) next to ordinary ones; sometimes every default is such a value
+    allzero = r.random() < 0.35
+    pool = [("int", ["0", "7"]), ("long", ["0", "9"]), ("double", ["0.0", "1.5"]), ("bool", ["false", "true"]), ("int", ["0", "3"])]
+    r.shuffle(pool)
+    defaults = []
+    for i, (t, vs) in enumerate(pool[:nd]):
+        dv = vs[0] if allzero else r.choice(vs)
+        fam = "bool" if t == "bool" else "native"
+        defaults.append((Param(fam, t, "val", "in", "d%d" % i), dv))
     dsuffix = None
     if r.random() < 0.6:
         n = r.choice([nd + 1, nd + 1, nd, nd + 2, 1])
@@ -567,7 +601,7 @@ def gen_spec(r, name, rich=True, nfree=None):
     if r.random() < 0.4:
         spec.ns = "ns1"
         for j in range(r.randrange(1, 3)):
-            ps = [gen_param(r, spec, i, allow_class=False, allow_struct=True) for i in range(r.randrange(0, 3))]
+            ps = [gen_param(r, spec, i, allow_class=False, allow_struct=True, in_ns=True) for i in range(r.randrange(0, 3))]
             ret = gen_ret(r, spec, allow_struct=True)
             if ret[0].startswith("class"):
                 ret = ("void",)
@@ -598,7 +632,7 @@ def gen_spec(r, name, rich=True, nfree=None):
             elif p.fam == "bool":
                 f.consts[p.name] = r.random() < 0.5
             elif p.fam == "enum":
-                f.consts[p.name] = r.choice(ENUM)
+                f.consts[p.name] = r.choice(ENUMS[p.t])
             elif p.fam == "string":
                 f.consts[p.name] = r.choice(["", "out", "new value", "zz top"])
             elif p.fam == "struct":
@@ -629,6 +663,7 @@ def fixed_spec(name="ogf"):
     spec = Spec(name)
     spec.classes = ["K0"]
     spec.use_enum = spec.use_struct = True
+    spec.use_cls_enum = True
     N = lambda t, n, mode="val", intent="in", const=False: Param("native", t, mode, intent, n, const=const)
     S = lambda n, mode="ref", intent="in": Param("string", "string", mode, intent, n, const=(intent == "in"))
     K = lambda n, mode, const=False: Param("class", "K0", mode, "in" if const else "inout", n, const=const)
@@ -681,6 +716,12 @@ def fixed_spec(name="ogf"):
         Func("wide", [N("unsigned long", "a0"), N("unsigned long", "a1"), N("size_t", "a2"), N("long long", "a3"),
                       N("unsigned int", "a4"), N("unsigned long", "a5", "ptr", "inout"), N("uint64_t", "a6", "ref", "out")],
              ("native", "unsigned long")),
+        Func("zd", [], ("native", "int"), defaults=[(N("int", "d0"), "0")]),
+        Func("zd", [N("double", "a0"), N("int", "a1")], ("void",)),
+        Func("at", [], ("native", "int"), cls="K0", const=True, defaults=[(N("int", "d0"), "0"), (Param("bool", "bool", "val", "in", "d1"), "false")]),
+        Func("mood", [Param("enum", "K0::Mood", "ptr", "inout", "a0"), Param("enum", "K0::Mood", "ref", "in", "a1", const=True),
+                      Param("enum", "K0::Mood", "val", "in", "a2")], ("void",), cls="K0"),
+        Func("fmood", [Param("enum", "K0::Mood", "ref", "out", "a0")], ("void",)),
         Func("byv", [Param("string", "string", "val", "in", "a0")], ("void",)),
         Func("byv", [Param("bool", "bool", "val", "in", "a0")], ("void",)),
         Func("tag", [S("a0")], ("void",), cls="K0"),
@@ -703,7 +744,7 @@ def fixed_spec(name="ogf"):
             elif p.fam == "bool":
                 f.consts[p.name] = r.random() < 0.5
             elif p.fam == "enum":
-                f.consts[p.name] = r.choice(ENUM)
+                f.consts[p.name] = r.choice(ENUMS[p.t])
             elif p.fam == "string":
                 f.consts[p.name] = r.choice(["out", "new value", "zz top"])
             elif p.fam == "struct":
